@@ -10,6 +10,9 @@ import NumbersModel.Drv.Iwa
 import NumbersModel.Drv.Loader
 import NumbersModel.Drv.Formula
 import NumbersModel.Drv.Refs
+import NumbersModel.Drv.DateFmt
+import NumbersModel.Drv.Duration
+import NumbersModel.Drv.NumFmt
 
 open NumbersModel.Drv
 
@@ -29,6 +32,9 @@ def dispatch (line : String) : String :=
     | "loader" :: rest => handleLoader rest
     | "formula" :: rest => handleFormula rest
     | "refs" :: rest => handleRefs rest
+    | "datefmt" :: rest => handleDateFmt rest
+    | "dur" :: rest => handleDuration rest
+    | "numfmt" :: rest => handleNumFmt rest
     | _ => none
   match r with
   | some s => s
